@@ -86,29 +86,46 @@ func (t *Term) SInt64() int64 {
 }
 
 type TB struct {
-	tab  map[string]*Term
+	tab  map[termKey]*Term
 	all  []*Term
 	vars map[string]*Term
 	True, False *Term
 }
 
 func NewTB() *TB {
-	tb := &TB{tab: map[string]*Term{}, vars: map[string]*Term{}}
+	tb := &TB{tab: map[termKey]*Term{}, vars: map[string]*Term{}}
 	tb.True = tb.BoolC(true)
 	tb.False = tb.BoolC(false)
 	return tb
 }
 
+type termKey struct {
+	op         string
+	sk, sw     int
+	name       string
+	b          bool
+	u, f       uint64
+	n          int
+	a0, a1, a2 int
+}
+
 func (tb *TB) intern(t *Term) *Term {
-	var sb strings.Builder
-	fmt.Fprintf(&sb, "%s|%d.%d|%s|%v|%x|%x", t.Op, t.S.K, t.S.W, t.Name, t.B, t.U, math.Float64bits(t.F))
-	for _, a := range t.Args {
-		fmt.Fprintf(&sb, "|%d", a.ID)
+	k := termKey{op: t.Op, sk: int(t.S.K), sw: t.S.W, name: t.Name, b: t.B, u: t.U, f: math.Float64bits(t.F), n: len(t.Args), a0: -1, a1: -1, a2: -1}
+	for i, a := range t.Args {
+		switch i {
+		case 0:
+			k.a0 = a.ID
+		case 1:
+			k.a1 = a.ID
+		case 2:
+			k.a2 = a.ID
+		default:
+			panic("term with more than 3 arguments")
+		}
 		if a.Depth+1 > t.Depth {
 			t.Depth = a.Depth + 1
 		}
 	}
-	k := sb.String()
 	if e, ok := tb.tab[k]; ok {
 		return e
 	}
